@@ -219,6 +219,9 @@ def _n_rank_only(tree) -> int:
 # ----------------------------------------------------------------------------- observation oracle
 
 
+MAX_EXPOSED = 800
+
+
 def _type_vi(name: str, elem: int):
     import onnx
     vi = onnx.ValueInfoProto()
@@ -285,6 +288,9 @@ def instrument(proto):
         return recs
 
     recs = expose(m.graph, "main")
+    if len(recs) > MAX_EXPOSED:         # very large models: an evenly spaced subset of the values
+        step = len(recs) / MAX_EXPOSED
+        recs = [recs[int(i * step)] for i in range(MAX_EXPOSED)]
     have = {vi.name for vi in m.graph.output}
     for r in recs:
         if r["name"] not in have:
@@ -422,11 +428,10 @@ def run(chk: Check) -> None:
             unresolved.append(d)
     chk.log(f"phase bcast done at {round(time.time() - chk.t0, 1)} s")
 
-    # ---- (b) real post-processing, snapshotted on every export
+    # ---- (b) real post-processing, snapshotted on every export; (b') consistency; (c) observation
     plan = export_plan(rng, thorough)
     t0 = time.time()
-    budget = 80 if not thorough else 1200
-    done = []
+    budget = 150 if not thorough else 1600
     raised: dict = {}
     refresh_stats = {"calls": 0, "skipped_const_rank_exceeds_result": 0}
     import jax2onnx.converter.ir_optimizations as opt
@@ -448,107 +453,104 @@ def run(chk: Check) -> None:
         except Exception:
             pass
 
-    opt._refresh_elementwise_output_shape = monitored_refresh
-    try:
-        with PostprocessHook():
-            for d, cfg in plan:
-                if time.time() - t0 > budget:
-                    break
-                n0 = len(SNAPS)
-                ex = progs.export(d, cfg)
-                if not ex.ok:
-                    k = ex.error.split(":")[0]
-                    raised[k] = raised.get(k, 0) + 1
-                    continue
-                snap = SNAPS[n0] if len(SNAPS) > n0 else None
-                done.append((ex, snap))
-    finally:
-        opt._refresh_elementwise_output_shape = orig_refresh
-    chk.log(f"phase export done at {round(time.time() - chk.t0, 1)} s ({len(done)} models)")
-    chk.coverage["programs"] = len(done)
-    chk.info("exports", {"planned": len(plan), "exported": len(done), "export_raised": raised})
-    chk.info("refresh_hypothesis_monitor", refresh_stats)
-
-    lines, idx = [], []
-    for k, (ex, snap) in enumerate(done):
-        if snap is None:
-            continue
-        lines.append(json.dumps({"op": "loosen", "before": snap["before"], "after": snap["after"],
-                                 "promote": snap["promote"], "constF32": snap["constF32"]},
-                                separators=(",", ":"), ensure_ascii=False))
-        idx.append(k)
-    answers = common.run_driver("C08", lines)
-    chk.log(f"phase driver done at {round(time.time() - chk.t0, 1)} s")
-    ldis = []
-    changed = 0
-    for k, a in zip(idx, answers):
-        ex, snap = done[k]
-        did_change = snap["before"] != snap["after"]
-        changed += did_change
-        chk.count({"op": "postprocess", "program": progs.describe(ex.desc), "config": ex.cfg,
-                   "nested_scopes": _n_rank_only(snap["before"]), "changed": did_change},
-                  nontrivial=did_change or _n_rank_only(snap["before"]) > 0)
-        if a != "same":
-            if not a.startswith("diff"):
-                raise RuntimeError(f"driver C08: {a[:300]}")
-            ldis.append({"program": ex.desc, "config": ex.cfg, "diff": a[:400]})
-    chk.add("traces_validated_against_impl", len(lines))
-    chk.info("postprocess_correspondence", {"models": len(lines), "models_changed_by_postprocess": changed,
-                                            "disagreements": len(ldis)})
-
-    # ---- (b') proven consistency checker on the PRE-post-processing model (annotations at full strength);
-    #      loosen_sound + the correspondence above carry "true" over to the final model
-    clines = [modeltree.request("consistent", done[k][1]["before"]) for k in idx]
-    canswers = common.run_driver("C08", clines)
-    vocab = cert = 0
-    rejected: list = []
-    for k, a in zip(idx, canswers):
-        if not a.startswith("{"):
-            raise RuntimeError(f"driver C08 consistent: {a[:300]}")
-        r = json.loads(a)
-        vocab += r["vocab"]
-        cert += r["certified"]
-        for x in r["rejected"]:
-            rejected.append({"program": progs.describe(done[k][0].desc), "node": x[:300]})
-    chk.info("annotConsistent", {"vocabulary_nodes": vocab, "certified_by_proven_checker": cert,
-                                 "not_certified": len(rejected), "not_certified_samples": rejected[:8],
-                                 "note": "not certified = output annotation not derivable from the input annotations "
-                                         "(e.g. rank-only loop-body inputs, missing input shape); these values are "
-                                         "covered by the ORT observation only"})
-    chk.log(f"phase consistent done at {round(time.time() - chk.t0, 1)} s ({cert}/{vocab} vocabulary nodes certified)")
-
-    # ---- (c) observation oracle on every export
     rng_np = np.random.default_rng(chk.seed)
     bindings = [{"B": 2}, {"B": 3}, {"B": 1}] if not thorough else [{"B": 1}, {"B": 2}, {"B": 3}, {"B": 5}, {"B": 7}]
     tot = {"values": 0, "body_values": 0, "runs": 0, "run_errors": 0, "not_observable": 0}
-    t1 = time.time()
-    obs_budget = 60 if not thorough else 900
-    observed = 0
-    for ex, snap in done:
-        if time.time() - t1 > obs_budget:
+    ldis: list = []
+    rejected: list = []
+    n_done = n_snap = changed = vocab = cert = observed = 0
+    for chunk in progs.chunks(plan, 250):
+        if time.time() - t0 > budget:
             break
-        cons, st = observe(ex.proto, rng_np, bindings)
-        observed += 1
-        for k in tot:
-            tot[k] += st.get(k, 0)
-        chk.count({"op": "observe", "program": progs.describe(ex.desc), "config": ex.cfg, "values": st["values"],
-                   "body_values": st["body_values"], "runs": st["runs"]}, nontrivial=st["runs"] > 0 and st["values"] > 0)
-        seen_keys = set()
-        for c in cons:
-            ctx_, comp = (ex.desc.get("context", "program"), ex.desc.get("component", ex.desc.get("name", "")))
-            key = {"kind": "annotation_contradiction", "what": c["what"], "producer": c.get("producer", "?"),
-                   "context": ctx_, "component": comp, "in_loop_body": bool(c.get("lead", 0))}
-            ks = json.dumps(key, sort_keys=True)
-            if ks in seen_keys:
-                continue
-            seen_keys.add(ks)
-            concrete += 1
-            chk.finding(key, f"{progs.describe(ex.desc)}: value {c.get('origin')} (by {c.get('producer')}) declared "
-                             f"{c.get('elem')}:{c.get('dims')} but runtime {c.get('runtime', c.get('values'))} "
-                             f"[{c['what']}] for {c.get('binding')}",
-                        {"program": ex.desc, "config": ex.cfg, "contradiction": c})
+        done = []
+        SNAPS.clear()
+        opt._refresh_elementwise_output_shape = monitored_refresh
+        try:
+            with PostprocessHook():
+                for d, cfg in chunk:
+                    if time.time() - t0 > budget:
+                        break
+                    n0 = len(SNAPS)
+                    ex = progs.export(d, cfg)
+                    if not ex.ok:
+                        k = ex.error.split(":")[0]
+                        raised[k] = raised.get(k, 0) + 1
+                        continue
+                    done.append((ex, SNAPS[n0] if len(SNAPS) > n0 else None))
+        finally:
+            opt._refresh_elementwise_output_shape = orig_refresh
+        n_done += len(done)
+        idx = [k for k, (_, snap) in enumerate(done) if snap is not None]
+        lines = [json.dumps({"op": "loosen", "before": done[k][1]["before"], "after": done[k][1]["after"],
+                             "promote": done[k][1]["promote"], "constF32": done[k][1]["constF32"]},
+                            separators=(",", ":"), ensure_ascii=False) for k in idx]
+        clines = [modeltree.request("consistent", done[k][1]["before"]) for k in idx]
+        answers = common.run_driver("C08", lines + clines)
+        n_snap += len(idx)
+        for k, a in zip(idx, answers[:len(idx)]):
+            ex, snap = done[k]
+            did_change = snap["before"] != snap["after"]
+            changed += did_change
+            chk.count({"op": "postprocess", "program": progs.describe(ex.desc), "config": ex.cfg,
+                       "nested_scopes": _n_rank_only(snap["before"]), "changed": did_change},
+                      nontrivial=did_change or _n_rank_only(snap["before"]) > 0)
+            if a != "same":
+                if not a.startswith("diff"):
+                    raise RuntimeError(f"driver C08: {a[:300]}")
+                ldis.append({"program": ex.desc, "config": ex.cfg, "diff": a[:400]})
+        # (b') proven consistency checker on the PRE-post-processing model (annotations at full strength);
+        #      loosen_sound + the correspondence above carry "true" over to the final model
+        for k, a in zip(idx, answers[len(idx):]):
+            if not a.startswith("{"):
+                raise RuntimeError(f"driver C08 consistent: {a[:300]}")
+            r = json.loads(a)
+            vocab += r["vocab"]
+            cert += r["certified"]
+            for x in r["rejected"]:
+                if len(rejected) < 200:
+                    rejected.append({"program": progs.describe(done[k][0].desc), "node": x[:300]})
+        # (c) observation oracle
+        for ex, snap in done:
+            if time.time() - t0 > budget:
+                break
+            cons, st = observe(ex.proto, rng_np, bindings)
+            observed += 1
+            for k in tot:
+                tot[k] += st.get(k, 0)
+            chk.count({"op": "observe", "program": progs.describe(ex.desc), "config": ex.cfg,
+                       "values": st["values"], "body_values": st["body_values"], "runs": st["runs"]},
+                      nontrivial=st["runs"] > 0 and st["values"] > 0)
+            seen_keys = set()
+            for c in cons:
+                ctx_, comp = (ex.desc.get("context", "program"), ex.desc.get("component", ex.desc.get("name", "")))
+                key = {"kind": "annotation_contradiction", "what": c["what"], "producer": c.get("producer", "?"),
+                       "context": ctx_, "component": comp, "in_loop_body": bool(c.get("lead", 0))}
+                if c["what"] == "symbol-inconsistent":
+                    key["symbol"] = c.get("symbol")
+                ks = json.dumps(key, sort_keys=True)
+                if ks in seen_keys:
+                    continue
+                seen_keys.add(ks)
+                concrete += 1
+                chk.finding(key, f"{progs.describe(ex.desc)}: value {c.get('origin')} (by {c.get('producer')}) "
+                                 f"declared {c.get('elem')}:{c.get('dims')} but runtime "
+                                 f"{c.get('runtime', c.get('values'))} [{c['what']}] for {c.get('binding')}",
+                            {"program": ex.desc, "config": ex.cfg, "contradiction": c})
+        SNAPS.clear()
+        progs.clear_cache()
+        chk.log(f"{n_done} models processed at {round(time.time() - chk.t0, 1)} s")
+    chk.coverage["programs"] = n_done
+    chk.info("exports", {"planned": len(plan), "exported": n_done, "export_raised": raised})
+    chk.info("refresh_hypothesis_monitor", refresh_stats)
+    chk.add("traces_validated_against_impl", n_snap)
+    chk.info("postprocess_correspondence", {"models": n_snap, "models_changed_by_postprocess": changed,
+                                            "disagreements": len(ldis)})
+    chk.info("annotConsistent", {"vocabulary_nodes": vocab, "certified_by_proven_checker": cert,
+                                 "not_certified": vocab - cert, "not_certified_samples": rejected[:8],
+                                 "note": "not certified = output annotation not derivable from the input annotations "
+                                         "(e.g. rank-only loop-body inputs, missing input shape); these values are "
+                                         "covered by the ORT observation only"})
     chk.info("observation", dict(tot, models_observed=observed, bindings=bindings))
-    chk.log(f"phase observe done at {round(time.time() - chk.t0, 1)} s")
 
     # ---- verdict for correspondence breaks without a concrete false annotation
     if (unresolved or ldis) and not chk.violations:
